@@ -38,6 +38,9 @@ inductive Action where
   | getExact (ns author key : Bytes) (includeEmpty : Bool)
   | getMany (ns : Bytes)
   | syncInitial (ns : Bytes)
+  /-- `SyncProcessMessage` (default reconciliation settings; the `SyncOutcome` travels with the
+  caller and is not part of the actor's state) -/
+  | syncProcess (ns : Bytes) (now : Nat) (msg : Ranger.Message)
   | getState (ns : Bytes)
   | dropReplica (ns : Bytes)
   | importNamespace (ns : Bytes) (kind : Nat) (raw : Bytes)
@@ -52,6 +55,8 @@ inductive Reply where
   | entry (e : Option Entry)
   | entries (es : List Entry)
   | message
+  /-- reply of `SyncProcessMessage`: the answer, if any -/
+  | syncReply (m : Option Ranger.Message)
   | state (sync : Bool) (subscribers handles : Nat)
   | secret (raw : Bytes)
   | errNotOpen
@@ -133,6 +138,14 @@ def step (s : AState) : Action → AState × Reply
     match getOpen s ns with
     | none => (s, .errNotOpen)
     | some r => if !r.sync then (s, .errSyncDisabled) else (s, .message)
+  | .syncProcess ns now msg =>
+    match getOpen s ns with
+    | none => (s, .errNotOpen)
+    | some r =>
+      if !r.sync then (s, .errSyncDisabled)
+      else
+        let st := (Replica.syncProcessMessage {} s.t ns now msg {}).1
+        ({ s with t := st.store }, .syncReply st.reply)
   | .getState ns =>
     match getOpen s ns with
     | none => (s, .errNotOpen)
